@@ -194,6 +194,13 @@ class CallGraph:
                 for key in self.by_name.get(m, ()):
                     if key[0] and _family(self.defs[key][0]) == fam:
                         out.add(key)
+                        # every class that inherits or defines m is
+                        # constructed before m can be observed
+                        for k2 in [key[0]] + self.repo.subclasses(
+                                key[0], strict=True):
+                            d, f0 = self.repo.resolve(k2, '__init__')
+                            if f0 is not None:
+                                out.add((d, '__init__'))
                 continue
             sub = c.endswith('+')
             c = c.rstrip('+')
